@@ -161,9 +161,37 @@ pub fn random_tokens(rng: &mut Rng, n: usize) -> Vec<u8> {
 }
 
 /// scripts for fork coins (C06); about `n` scripts
+/// a copy of an earlier script of the batch with one payload byte changed (same length, same
+/// prefix or same suffix): exposes caches / memoisation keyed too coarsely
+fn near_duplicate(out: &[Vec<u8>], rng: &mut Rng) -> Option<Vec<u8>> {
+    if out.is_empty() {
+        return None;
+    }
+    for _ in 0..4 {
+        let s = rng.pick(out);
+        if s.len() >= 12 {
+            let mut v = s.clone();
+            let i = match rng.below(3) {
+                0 => v.len() - 3 - rng.usize(0, 2),          // near the end of the payload
+                1 => 3 + rng.usize(0, 2),                    // near its start
+                _ => rng.usize(3, v.len() - 3),
+            };
+            v[i] ^= 1 << rng.below(8);
+            return Some(v);
+        }
+    }
+    None
+}
+
 pub fn fork_scripts(rng: &mut Rng, n: usize) -> Vec<Vec<u8>> {
     let mut out: Vec<Vec<u8>> = Vec::with_capacity(n);
     while out.len() < n {
+        if rng.chance(1, 16) {
+            if let Some(v) = near_duplicate(&out, rng) {
+                out.push(v);
+                continue;
+            }
+        }
         match rng.below(14) {
             0 | 1 | 2 => {
                 // every template x every push form that can carry the slot
@@ -322,6 +350,12 @@ pub fn bitcoin_scripts(rng: &mut Rng, n: usize) -> Vec<Vec<u8>> {
         }
     };
     while out.len() < n {
+        if rng.chance(1, 16) {
+            if let Some(v) = near_duplicate(&out, rng) {
+                out.push(v);
+                continue;
+            }
+        }
         match rng.below(16) {
             0..=3 => out.push(canon(rng)),
             4 | 5 => {
